@@ -11,11 +11,12 @@ from engine.vsym import build, drivers
 class CppFilter:
     """Generated C++ of one corpus program (EKF or plain Model), compiled with double -> Sym; concrete twin lazily."""
 
-    def __init__(self, p, *, ekf=True, cse=True, k=5.0, max_dt=0.1, container="list", reverse=False, noise=None, extra_body=None, extra_includes=(), cal_container="set", history=True):
+    def __init__(self, p, *, ekf=True, cse=True, k=5.0, max_dt=0.1, container="list", reverse=False, noise=None, extra_body=None, extra_includes=(), cal_container="set", history=True, config_form="auto"):
         self.p, self.ekf, self.cse, self.k, self.max_dt = p, ekf, cse, k, max_dt
         self.container, self.reverse, self.noise = container, reverse, noise
         self.cal_container = cal_container
         self.history = history
+        self.config_form = config_form
         self.gen_info = {}
         self.dir = None
         self.exe = None
@@ -32,7 +33,7 @@ class CppFilter:
         try:
             buf = io.StringIO()
             with contextlib.redirect_stdout(buf):
-                h, s = build.generate(self.p, self.dir, ekf=self.ekf, cse=self.cse, k=self.k, max_dt=self.max_dt, container=self.container, reverse=self.reverse, noise=self.noise, cal_container=self.cal_container, warm_program=self._warm_program())
+                h, s = build.generate(self.p, self.dir, ekf=self.ekf, cse=self.cse, k=self.k, max_dt=self.max_dt, container=self.container, reverse=self.reverse, noise=self.noise, cal_container=self.cal_container, warm_program=self._warm_program(), config_form=self.config_form)
             self.gen_info = dict(build.generate.last_info)
             self.header_text = open(h).read()
             self.source_text = open(s).read()
